@@ -284,6 +284,9 @@ def run_hypothesis_shard(pid, tier, seed, shard, examples):
 def _shard_entry(args):
     pid, tier, seed, shard, examples = args
     try:
+        env.setup()
+        env.import_bldfm()
+        env.quiet_worker_exit()
         return ("ok", run_hypothesis_shard(pid, tier, seed, shard, examples))
     except BaseException:
         return ("error", traceback.format_exc())
@@ -294,6 +297,7 @@ def _enum_entry(args):
     try:
         env.setup()
         env.import_bldfm()
+        env.quiet_worker_exit()
         mod = load_prop(pid)
         stats = Stats(pid)
         for case in chunk:
@@ -312,9 +316,22 @@ class HarnessError(Exception):
     pass
 
 
-def _pool(n):
-    ctx = multiprocessing.get_context("spawn")
-    return ctx.Pool(n)
+class _pool:
+    """spawn-context pool that is closed and joined (not terminated) on exit."""
+
+    def __init__(self, n):
+        self.pool = multiprocessing.get_context("spawn").Pool(n)
+
+    def __enter__(self):
+        return self.pool
+
+    def __exit__(self, *exc):
+        if exc[0] is None:
+            self.pool.close()
+        else:
+            self.pool.terminate()
+        self.pool.join()
+        return False
 
 
 def write_violation(pid, v):
